@@ -2470,6 +2470,15 @@ func (r *Resolver) findDS(ctx context.Context, signer, qname string, parentDS []
 // determine whether an insecure delegation exists between the ancestor and
 // the zone.
 func (r *Resolver) isZoneSecure(ctx context.Context, qname string, parentDS []dns.RR, zone string) bool {
+	if len(parentDS) == 0 && zone == rootzone && r.dnssec && r.hasTrustAnchors() {
+		// The root has no parent and therefore no DS: its security rests
+		// on the configured trust anchors. A response served from the
+		// root zone itself arrives here with an empty DS set, which must
+		// not be read as "DNSSEC absent" — that would let anyone on the
+		// path strip the signatures from a root answer (a TLD's NXDOMAIN,
+		// say) and have it accepted as insecure data.
+		return true
+	}
 	if !hasSupportedDS(parentDS) {
 		// Either no DS records, or every DS uses a digest type this
 		// validator cannot verify. RFC 6840 §5.2 treats such zones as
